@@ -73,6 +73,19 @@ func c10Apply(cs c10Case) c10Res {
 		res.Aux, res.Aux2 = al.SimulateRogue(cs.F1, cs.F2)
 	case "bootstrap":
 		out, inPlace = al.BuildBootstrap(cs.F1), false
+	case "bootparts":
+		// bootstrap of a partitioned alignment, the way build seqboot --partition does it: each block
+		// is bootstrapped on its own and the replicates are concatenated
+		L := al.Length()
+		var p1, p2 align.Alignment
+		if p1, err = al.SubAlign(0, cs.N); err == nil {
+			if p2, err = al.SubAlign(cs.N, L-cs.N); err == nil {
+				b1, b2 := p1.BuildBootstrap(1), p2.BuildBootstrap(1)
+				err = b1.Concat(b2)
+				out = b1
+			}
+		}
+		inPlace = false
 	case "sample":
 		out, err = al.Sample(cs.N)
 		inPlace = false
@@ -253,6 +266,33 @@ func c10Leaf(cs c10Case, res c10Res) (clause, desc string) {
 			}
 			if !ok {
 				return bad("column-not-an-original-column", "output column %d = %q", j, column(out, j))
+			}
+		}
+	case "bootparts":
+		if res.Err != "" {
+			return bad("unexpected-error", "%s", res.Err)
+		}
+		if len(out) != n {
+			return bad("rows-changed", "rows %v", out)
+		}
+		for i := range out {
+			if out[i].Name != in[i].Name || len(out[i].Seq) != L {
+				return bad("length-not-floor-frac-L", "row %v, want length %d", out[i], L)
+			}
+		}
+		for j := 0; j < L; j++ {
+			lo, hi := 0, cs.N
+			if j >= cs.N {
+				lo, hi = cs.N, L
+			}
+			ok := false
+			for k := lo; k < hi; k++ {
+				if column(out, j) == column(in, k) {
+					ok = true
+				}
+			}
+			if !ok {
+				return bad("column-not-an-original-column", "output column %d = %q is not a column of its block [%d,%d)", j, column(out, j), lo, hi)
 			}
 		}
 	case "sample", "samplebag":
@@ -784,6 +824,11 @@ func c10Cases(tier string) []c10Case {
 			for _, frac := range []float64{0.25, 0.5, 0.75, 1, 0, 1.5} {
 				add(c10Case{Op: "bootstrap", Seqs: seqs, Alpha: nt, F1: frac})
 			}
+			if n >= 2 && L >= 2 && L <= 3 {
+				for k := 1; k < L; k++ {
+					add(c10Case{Op: "bootparts", Seqs: seqs, Alpha: nt, N: k})
+				}
+			}
 			for k := 0; k <= n+1; k++ {
 				add(c10Case{Op: "sample", Seqs: seqs, Alpha: nt, N: k})
 				add(c10Case{Op: "samplebag", Seqs: seqs, Alpha: nt, N: k})
@@ -894,7 +939,7 @@ func init() {
 	mc.Register(&mc.Prop{
 		ID:    "C10",
 		Level: "model_checking",
-		Rule: "for each randomised operation (ShuffleSequences, ShuffleSites, Swap, SimulateRogue, BuildBootstrap, Sample, SampleSeqBag, RandSubAlign, Recombine, AddGaps, Mutate, Rarefy) on position-coded alignments of every shape n<=3 x L<=3 (4x4 for the support-checked operations in thorough) and on all alignments n<=2,L<=2 over {A,C,-} for the content-sensitive ones, with all listed parameter values: EVERY sequence of RNG answers (rand.Intn: all n values; rand.Perm: all n! orders; rand.Float64: representatives on both sides of and at every threshold the code compares with) is executed; states/transitions are nodes/edges of the RNG choice trees; " +
+		Rule: "for each randomised operation (ShuffleSequences, ShuffleSites, Swap, SimulateRogue, BuildBootstrap (also block-wise followed by Concat, as build seqboot --partition does), Sample, SampleSeqBag, RandSubAlign, Recombine, AddGaps, Mutate, Rarefy) on position-coded alignments of every shape n<=3 x L<=3 (4x4 for the support-checked operations in thorough) and on all alignments n<=2,L<=2 over {A,C,-} for the content-sensitive ones, with all listed parameter values: EVERY sequence of RNG answers (rand.Intn: all n values; rand.Perm: all n! orders; rand.Float64: representatives on both sides of and at every threshold the code compares with) is executed; states/transitions are nodes/edges of the RNG choice trees; " +
 			"per leaf the operation's invariant, per tree reached-outcome set == admissible set where the statement pins the support down (row shuffle, bootstrap, sampling, site sampling, full site shuffle); seed replay with the real stream for seeds 0,1,42 twice and under map-order choices, on 3x3 and (for operations reporting name lists or pairing rows) 4x4 alignments. distinct_nontrivial = distinct (case, answer sequence) leaves whose invariant was checked.",
 		Assumptions: []string{
 			"rand.Intn(n) can return every value of [0,n) and rand.Perm every permutation (positive probability is decided as reachability over RNG answers)",
